@@ -113,20 +113,15 @@ theorem hintLoop_params (hints : List (Name × HintAnns)) (args : List (Name × 
           | unmodelled => rfl
 
 theorem hintLoop_is_addParams (d : FuncDecl) (args : List (Name × Value)) (h : CallOK d args) :
-    Gen.hintLoop (Gen.allHints d) args (Gen.allHints d) = addParams args d.params := by
+    Gen.hintLoop (Gen.allHints d) args d.params = addParams args d.params := by
   have hl : ∀ p ∈ d.params, Gen.lookupHint (Gen.allHints d) p.1 = some p.2 := by
     intro p hp
     unfold Gen.allHints
     exact lookupHint_append_left _ _ p.1 p.2 (by simpa using hp) h.nodup
-  have := hintLoop_params (Gen.allHints d) args d.params (Gen.retHints d) hl h.no_return h.bound
-  have htail : Gen.hintLoop (Gen.allHints d) args (Gen.retHints d) = .ok [] := by
-    unfold Gen.retHints
-    cases d.ret with
-    | none => rfl
-    | some r => simp [Gen.hintLoop, Gen.hintStep]
-  show Gen.hintLoop (Gen.allHints d) args (d.params ++ Gen.retHints d) = _
-  rw [this, htail]
-  cases addParams args d.params <;> simp
+  have := hintLoop_params (Gen.allHints d) args d.params [] hl h.no_return h.bound
+  rw [List.append_nil] at this
+  rw [this]
+  cases addParams args d.params <;> simp [Gen.hintLoop]
 
 /-- the model's wrapper once the provider's mapping is known -/
 def afterProvider (acc : Acc) (d : FuncDecl) (args : List (Name × Value)) (body : BodyResult) (σ : Scope) : CallTrace :=
